@@ -353,6 +353,23 @@ class QualitativeDiscretizer(BaseDiscretizer):
             )
             x_copy = string_discretizer.fit_transform(x_copy, y)
 
+            # checking that converted values of ordinal features are in the provided ordering
+            # (StringDiscretizer appends the values it does not find in it)
+            for feature in features_to_convert:
+                if feature in self.ordinal_features:
+                    known_values = self.values_orders[feature].values()
+                    converted_order = string_discretizer.values_orders[feature]
+                    unexpected = [
+                        value
+                        for value in converted_order
+                        if value != string_discretizer.str_nan
+                        and all(val not in known_values for val in converted_order.get(value))
+                    ]
+                    assert len(unexpected) == 0, (
+                        " - [QualitativeDiscretizer] Unexpected value! The ordering for values: "
+                        f"{str(unexpected)} of feature '{feature}' was not provided."
+                    )
+
             # updating values_orders accordingly
             self.values_orders.update(string_discretizer.values_orders)
 
